@@ -40,13 +40,18 @@ def fmt(x, style):
         return np.format_float_scientific(x, unique=True)
     if style == "SCI":
         return np.format_float_scientific(x, unique=True).upper()
+    if style == "nolead":  # .5  (no digit in front of the decimal point)
+        r = repr(x)
+        return r[1:] if r.startswith("0.") else r
+    if style == "traildot" and x == int(x) and abs(x) < 1e15:
+        return str(int(x)) + "."
     return repr(x)
 
 
 @st.composite
 def config(draw):
     n = draw(st.integers(1, 5))
-    S = float(draw(st.sampled_from([100, 1000, 600.0, 20000, 1e5, 5e7, 0.3, 12345.678])))
+    S = float(draw(st.sampled_from([100, 1000, 600.0, 20000, 1e5, 5e7, 0.3, 12345.678, 1.5])))
     parts = [draw(st.integers(1, 20)) for _ in range(n)]
     tot = sum(parts)
     frac = [100.0 * p / tot for p in parts]
@@ -69,7 +74,7 @@ def config(draw):
         specs[idx] = (specs[idx][0], specs[idx][1] * fac)
     if mode == "perturb_ext":
         ext = S * draw(st.sampled_from([0.5, 2.0, 1.01, 0.999]))
-    styles = [draw(st.sampled_from(["repr", "int", "sci", "SCI"])) for _ in range(n)]
+    styles = [draw(st.sampled_from(["repr", "int", "sci", "SCI", "nolead", "traildot"])) for _ in range(n)]
     smis = [draw(st.sampled_from(SMI)) for _ in range(n)]
     return specs, ext, styles, smis, mode
 
